@@ -57,7 +57,22 @@ def run_driver_chunk(binary, descs, outfile, timeout, env=None):
     try:
         p = subprocess.run([binary, outfile], input="\n".join(descs) + "\n", stdout=subprocess.PIPE, stderr=subprocess.PIPE,
                            universal_newlines=True, timeout=timeout, env=e)
-        return dict(file=outfile, rc=p.returncode, err=p.stderr[-4000:], timeout=False, wall=time.time() - t0, ndesc=len(descs))
+        rc = p.returncode
+        if rc < 0:
+            # the driver was killed by a signal its handler could not report (e.g. the handler itself crashed on a corrupted heap): the code
+            # under test took the process down.  Keep the complete lines of the trace and close it with the Abort line the handler would
+            # have written, so that the specification sees the crash as what it is (rule Abort) instead of an unreadable trace.
+            try:
+                with open(outfile, "rb") as fh:
+                    data = fh.read()
+                cut = data.rfind(b"\n") + 1
+                with open(outfile, "wb") as fh:
+                    fh.write(data[:cut])
+                    fh.write(('{"e":"Abort","why":"killed","sig":%d}\n' % (-rc)).encode())
+                rc = 0
+            except OSError:
+                pass
+        return dict(file=outfile, rc=rc, err=p.stderr[-4000:], timeout=False, wall=time.time() - t0, ndesc=len(descs), killed=p.returncode < 0)
     except subprocess.TimeoutExpired as ex:
         return dict(file=outfile, rc=-1, err=(ex.stderr or "")[-2000:] if isinstance(ex.stderr, str) else "", timeout=True,
                     wall=time.time() - t0, ndesc=len(descs))
